@@ -267,15 +267,17 @@ func (i *importer) queryImports(filename string) fileImports {
 
 	uses := func(name string) bool {
 		for _, q := range gq {
-			if q.hasRetType() {
-				if q.Ret.EmitStruct() {
-					for _, f := range q.Ret.Struct.Fields {
-						fType := strings.TrimPrefix(f.Type, "[]")
-						if strings.HasPrefix(fType, name) {
-							return true
-						}
+			// the row struct is emitted for every command, also for those
+			// that scan nothing (:exec with a RETURNING list)
+			if q.Ret.EmitStruct() {
+				for _, f := range q.Ret.Struct.Fields {
+					fType := strings.TrimPrefix(f.Type, "[]")
+					if strings.HasPrefix(fType, name) {
+						return true
 					}
 				}
+			}
+			if q.hasRetType() {
 				if strings.HasPrefix(q.Ret.Type(), name) {
 					return true
 				}
